@@ -33,6 +33,7 @@ def dispatch (j : Json) : R Json := do
   | "c15" => C15.handle j
   | "c16" => C16.handle j
   | "c17" => C17.handle j
+  | "c17_labels" => C17.labels j
   | "c09" => Covers.c09 j
   | "c10" => Covers.c10 j
   | "c11" => C11Loop.handle j
